@@ -487,6 +487,54 @@ VARIANTS = [
      "old": "        self.terminators = terminators\n        self.write_terminator = write_terminator\n",
      "new": "        self.terminators = terminators\n        self._term_re = re.compile(b\"|\".join(re.escape(t) for t in terminators))\n"
             "        self.write_terminator = write_terminator\n"},
+    # ------------------------------------------------------------------ round 8
+    {"name": "R17 OptionalPrefixed marker carries the payload's truth, payload still written when not None", "file": SER,
+     "expect": "C08.R17",
+     "old": "        writer.write(U8, val is not None, ctx=ctx)\n", "new": "        writer.write(U8, bool(val), ctx=ctx)\n"},
+    {"name": "P R17 OptionalPrefixed marker through a shared bool adapter, still the `is not None` answer", "file": SER,
+     "expect": "silent",
+     "edits": [
+         {"file": SER, "old": "        writer.write(U8, val is not None, ctx=ctx)\n",
+          "new": "        writer.write(self._MARK, not (val is None), ctx=ctx)\n"},
+         {"file": SER, "old": "        present = reader.read(U8, ctx=ctx)\n        if present:\n",
+          "new": "        if reader.read(self._MARK, ctx=ctx):\n"},
+         {"file": SER, "old": "    \"\"\"Field prefixed by a U8 indicating whether or not it's present\"\"\"\n    OPTIONAL = True\n",
+          "new": "    \"\"\"Field prefixed by a U8 indicating whether or not it's present\"\"\"\n    OPTIONAL = True\n"
+                 "    _MARK = BoolAdapter(U8)\n"}]},
+    {"name": "P R17 OptionalPrefixed presence computed once into a local", "file": SER, "expect": "silent",
+     "old": "        writer.write(U8, val is not None, ctx=ctx)\n        if val is not None:\n",
+     "new": "        present = val is not None\n        writer.write(U8, present, ctx=ctx)\n        if present:\n"},
+    {"name": "R2 primitive writer masks the number to the field's range instead of letting struct refuse it", "file": SER,
+     "expect": "C08.R2",
+     "old": "        struct_obj = self._pick_struct(writer.endianness)\n        writer.write_bytes(struct_obj.pack(val))\n",
+     "new": "        struct_obj = self._pick_struct(writer.endianness)\n        writer.write_bytes(struct_obj.pack(val & self._max_val))\n"},
+    {"name": "P R2 single-byte fast path with an explicit range test in front of the mask", "file": SER, "expect": "silent",
+     "edits": [
+         {"file": SER, "old": "        struct_obj = self._pick_struct(writer.endianness)\n        writer.write_bytes(struct_obj.pack(val))\n",
+          "new": "        if self._be_struct.size == 1:\n            if val > self._max_val or val < self._min_val:\n"
+                 "                raise ValueError(f\"{val!r} out of range\")\n            writer.write_bytes((val & 0xFF,))\n"
+                 "            return\n        struct_obj = self._pick_struct(writer.endianness)\n"
+                 "        writer.write_bytes(struct_obj.pack(val))\n"},
+         {"file": SER, "old": "        return super().deserialize(reader, ctx)[0]\n",
+          "new": "        if self._be_struct.size == 1:\n            byte = reader.read_bytes(1)[0]\n"
+                 "            return byte - 0x100 if self._is_signed and byte > self._max_val else byte\n"
+                 "        return super().deserialize(reader, ctx)[0]\n"}]},
+    {"name": "P R1/R3 TupleCoord.deserialize walks a tuple of NUM_ELEMS copies of the element spec", "file": SER,
+     "expect": "silent",
+     "old": "        vals = (reader.read(cls.ELEM_SPEC, ctx=ctx) for _ in range(cls.NUM_ELEMS))\n",
+     "new": "        specs = (cls.ELEM_SPEC,) * cls.NUM_ELEMS\n        vals = [reader.read(one, ctx=ctx) for one in specs]\n"},
+    {"name": "P R3 Struct compiles its two byte orders in a static helper", "file": SER, "expect": "silent",
+     "old": "        if struct_fmt[:1] in \"!><\":\n            self._be_struct = self._le_struct = struct.Struct(struct_fmt)\n"
+            "        else:\n            self._le_struct = struct.Struct(\"<\" + struct_fmt)\n"
+            "            self._be_struct = struct.Struct(\">\" + struct_fmt)\n",
+     "new": "        self._le_struct, self._be_struct = self._both_orders(struct_fmt)\n\n    @staticmethod\n"
+            "    def _both_orders(fmt):\n        if fmt[:1] in \"!><\":\n            one = struct.Struct(fmt)\n"
+            "            return one, one\n        return struct.Struct(\"<\" + fmt), struct.Struct(\">\" + fmt)\n"},
+    {"name": "R3 Struct big-endian object compiled from a different format than the little-endian one", "file": SER,
+     "expect": "C08.R3",
+     "old": "    def __init__(self, struct_fmt):\n        self._struct_fmt: str = struct_fmt\n",
+     "new": "    def __init__(self, struct_fmt, wide_fmt=None):\n        self._struct_fmt: str = struct_fmt\n"
+            "        self._wide = struct.Struct(\">\" + (wide_fmt or struct_fmt))\n"},
     # ------------------------------------------------------------------ documented limits (value level)
     {"name": "R15 Str strips NULs on both ends although the writer only appends one", "file": SER, "expect": "C08.R15",
      "old": "                instance += b\"\\x00\"\n        writer.write(self._bytes_tmpl, instance, ctx=ctx)\n\n"
